@@ -173,6 +173,7 @@ def m_hname_try_from(ex, args, callee):
 def m_hvalue_try_from(ex, args, callee):
     v = dv(args[0])
     if isinstance(v, HV): return ex.ok(v)
+    if isinstance(v, Opaque) and v.tag == 'b64': return ex.ok(HV(v))       # base64 text is always a legal header value
     if isinstance(v, str):
         if all((32 <= ord(ch) != 127) or ch == '\t' for ch in v): return ex.ok(HV(v))
         return ex.err(Opaque('InvalidHeaderValue'))
